@@ -953,7 +953,6 @@ package logqlengine
 //@   ensures[line-and-time-readers-installed] has(ret0, "__line__") && has(ret0, "__timestamp__")
 //@   ensures ret0 != nil
 //@ func getTemplateBuffer
-//@   trusted
 //@   modifies nothing
 //@   ensures ret0 != nil
 
